@@ -9,7 +9,7 @@ RULE = ('each case fixes a group (G1/G2), a relation between A and B (independen
         'coordinates, library Jacobian never normalised, lambda-rescaled); the library computes A+B, B+A, A-B, -A, (A+B)+C, A+(B+C), '
         'A+O, O+A and every returned Jacobian triple is judged by the model: coordinates < q, y^2 = x^3 + b z^6, and affine image '
         '(x/z^2, y/z^3 by the model\'s own inversion) equal to the affine chord-and-tangent result on the dlog-derived points. '
-        'Also arbitrary curve points not known as multiples of the generator (for G2: twist points outside the order-r subgroup). '
+        'Also points given only by coordinates (G1: arbitrary curve points, the cofactor being 1; G2: subgroup points). '
         'Pairs of distinct points sharing their y-coordinate ((beta*x, y), beta^3 = 1) are a required class. distinct = distinct (group, op, operand triples); non-trivial = neither operand is the identity')
 
 RELATIONS = ['indep', 'equal', 'samereg', 'opposite', 'idA', 'idB', 'outside', 'same-y', 'h-directed']
@@ -38,6 +38,8 @@ def required(tier):
     req = []
     for which in (1, 2):
         for rel in RELATIONS:
+            if which == 2 and rel == 'h-directed':
+                continue        # the x-difference construction yields points outside the subgroup: G1 only
             for ra in gen.REPS:
                 for rb in gen.REPS:
                     req.append('g%d/%s/%s-%s' % (which, rel, ra, rb))
@@ -60,18 +62,24 @@ def run(ctx, spec):
         if rep == 'scaled':
             return pr.let(g + '.lit', rm.jac_lit(F, P, gen.lam_for(rng, which)))[0]
         # jac: P = (P - S) + S computed by the library
-        S = points.rand_curve_point(rng, which)
+        S = points.rand_curve_point(rng, 1) if which == 1 else rm.gmul(2, rng.randrange(1, r))
         D = rm.cadd(F, P, rm.cneg(F, S))
         a = pr.let(g + '.lit', rm.jac_lit(F, D))[0]
         b = pr.let(g + '.lit', rm.jac_lit(F, S, gen.lam_for(rng, which) if rng.random() < 0.5 else None))[0]
         return pr.let(g + '.add', a, b)[0]
 
+    def curve_point():
+        # G1 has cofactor 1, so every curve point is a group element; for G2 the property speaks of the order-r subgroup only
+        return points.rand_curve_point(rng, 1) if which == 1 else rm.gmul(2, rng.randrange(1, r))
+
+    if rel == 'h-directed' and which == 2:
+        rel = 'outside'
     if rel == 'h-directed':
         # two curve points whose x-difference h (squared by the adder with the dedicated squaring routine) is aimed at that routine:
         # Montgomery quotient digits 0 / 2^64-1 or an unreduced square accumulator on a boundary (G2: h real, so h^2 hits Fq squaring/mul)
         PA = PB = None
         for _ in range(200):
-            PA = points.rand_curve_point(rng, which)
+            PA = curve_point()
             got = gen.unreduced_square(rng, q) if rng.random() < 0.5 else (gen.mont_digit_square(rng, q), None)
             if not got:
                 continue
@@ -81,15 +89,15 @@ def run(ctx, spec):
             if PB is not None:
                 break
         if PB is None:
-            PB = points.rand_curve_point(rng, which)
-        PC = points.rand_curve_point(rng, which)
+            PB = curve_point()
+        PC = curve_point()
         A, B, C = arb(PA, ra), arb(PB, rb), arb(PC, rng.choice(gen.REPS))
     elif rel in ('outside', 'same-y'):
         if rel == 'same-y' and rng.random() < 0.7:
             PA = rm.gmul(which, gen.scalar_r(rng)[0] or 1)
         else:
-            PA = points.rand_curve_point(rng, which)
-        PB = points.rand_curve_point(rng, which)
+            PA = curve_point()
+        PB = curve_point()
         k = rng.randrange(4)
         if rel == 'same-y':
             bk = BETA if rng.random() < 0.5 else BETA * BETA % q
@@ -99,7 +107,7 @@ def run(ctx, spec):
             PB = PA
         elif k == 1:
             PB = rm.cneg(F, PA)
-        PC = points.rand_curve_point(rng, which)
+        PC = curve_point()
         A, B, C = arb(PA, ra), arb(PB, rb), arb(PC, rng.choice(gen.REPS))
     else:
         a, _c = gen.scalar_r(rng)
